@@ -11,6 +11,16 @@ use serde_json::json;
 pub struct C15;
 
 const NAMES: [&[&str]; 4] = [&["ga", "gb", "gc", "gd"], &["x", "y", "z"], &["x", "m", "n"], &["x", "q"]];
+/// v2: nested names may be spelled like the built-in symbols (`.pc`, `..incbin` are ordinary local symbols)
+const NAMES_V2: [&[&str]; 4] = [&["ga", "gb", "gc", "gd"], &["x", "y", "z", "pc"], &["x", "m", "n", "pc", "incbin"], &["x", "q", "pc"]];
+
+fn names(level: usize) -> &'static [&'static str] {
+    if crate::engine::gen_version() >= 2 {
+        NAMES_V2[level]
+    } else {
+        NAMES[level]
+    }
+}
 
 /// spell a reference to the declared path `target` from a place whose scope chain is `ctx`
 fn spell(t: &mut Tape, ctx: &[String], target: &[String]) -> String {
@@ -56,14 +66,14 @@ pub fn gen_scope(t: &mut Tape) -> ScopeCase {
                 let dots = if depth == 0 { 0 } else { t.urange(0, depth.min(3)) };
                 let dots = if t.chance(1, 3) { depth.min(3) } else { dots };
                 // avoid accidental duplicates (they are injected on purpose elsewhere)
-                let mut name = t.pick(NAMES[dots]).to_string();
+                let mut name = t.pick(names(dots)).to_string();
                 for _ in 0..4 {
                     let mut p: Vec<String> = plan_ctx[..dots.min(plan_ctx.len())].to_vec();
                     p.push(name.clone());
                     if !plan_declared.contains(&p) {
                         break;
                     }
-                    name = format!("{}{}", t.pick(NAMES[dots]), t.draw(3));
+                    name = format!("{}{}", t.pick(names(dots)), t.draw(3));
                 }
                 let mut p: Vec<String> = plan_ctx[..dots.min(plan_ctx.len())].to_vec();
                 p.push(name.clone());
